@@ -334,6 +334,15 @@ structure TimeV where
   tz : Option Int
   deriving DecidableEq, Repr
 
+/-- microseconds of a fraction of a second given without trailing zeros (exact when it has at most six digits) -/
+def fracMicros (fr : Str) : Nat := natVal fr * 10 ^ (6 - fr.length)
+
+/-- the time of day as microseconds since midnight, local -/
+def TimeV.localMicros (t : TimeV) : Nat := ((t.hour * 60 + t.minute) * 60 + t.second) * 1000000 + fracMicros t.frac
+
+/-- XSD timeline value of a time of day with a zone (microseconds): local time minus the offset (§3.3.8: `timeOnTimeline`) -/
+def TimeV.utcMicros (t : TimeV) : Option Int := t.tz.map (fun z => (t.localMicros : Int) - z * 60000000)
+
 def dateVal (s : Str) : DateV × Str :=
   let neg := s.head? == some '-'
   let s' := if neg then s.drop 1 else s
